@@ -43,6 +43,7 @@ def run(ctx):
     r10_sparse_tokens(ctx)
     r11_declared_level_order(ctx)
     r12_libsvm_tokens(ctx)
+    r13_guarded_negative_positions(ctx)
 
 
 def _nested(fn, name):
@@ -50,6 +51,30 @@ def _nested(fn, name):
         if isinstance(x, ast.FunctionDef) and x.name == name and x is not fn:
             return x
     return None
+
+
+def r13_guarded_negative_positions(ctx, rule="C12.R13"):
+    """'Weka files are always accepted': the fallback parser splits on the delimiter first, so a quoted value that STARTS with the delimiter (',', or a row beginning ',') leaves
+    a piece that is only the opening quote -- looking at its second to last character raises IndexError instead of re-joining the value."""
+    ctx.rule(rule, "in the ARFF line parsers a loop / branch condition that looks at position [-2] (or [1]) of a piece first establishes that the piece is that long "
+                   "(a len(..) comparison to its left in the same and/or chain)")
+    n = 0
+    for qual in ("ArffLineReader._dense_advanced", "ArffAttrReader._split"):
+        if not ctx.model.has_func(RDR, qual):
+            continue
+        fn = ctx.fn(RDR, qual)
+        for x in ast.walk(fn):
+            if not isinstance(x, (ast.While, ast.If)):
+                continue
+            for sub in [y for y in ast.walk(x.test) if isinstance(y, ast.Subscript) and isinstance(y.slice, ast.UnaryOp) and isinstance(y.slice.op, ast.USub)
+                        and isinstance(y.slice.operand, ast.Constant) and y.slice.operand.value >= 2]:
+                n += 1
+                subj = unparse(sub.value)
+                t = x.test
+                lens = [c for c in ast.walk(t) if isinstance(c, ast.Compare) and any(isinstance(k, ast.Call) and call_name(k) == "len" and unparse(k.args[0]) == subj for k in [c.left] + list(c.comparators))]
+                before = any(c.lineno < sub.lineno or (c.lineno == sub.lineno and c.col_offset < sub.col_offset) for c in lens)
+                ctx.ob(rule, RDR, qual, x, f"position {unparse(sub.slice)} of a piece is read only after its length was tested", before, detail={"piece": subj})
+    ctx.floor(rule, "negative-position look-ups in parser conditions", n, 1)
 
 
 def r1_stateful_chunks(ctx):
@@ -171,6 +196,13 @@ def gz_predicate(ctx, rule):
     norm = lambda s: s.replace("self._filename", "P").replace("self._path", "P")
     ok = len(wp) == 1 and len(rp) == 1 and norm(wp[0]) == norm(rp[0])
     ctx.ob(rule, SNK, "DiskSink.__enter__", enter, "writer and reader choose gzip by the same predicate on the path", ok, detail={"writer": wp, "reader": rp}, stmt="gz predicate")
+    # third site: the torn-tail repair of experiments/core.py (the function that truncates the result file)
+    EXPC = "coba/experiments/core.py"
+    for (rel, qual), f_ in sorted(ctx.model.functions.items()):
+        if rel == EXPC and any(isinstance(c, ast.Call) and isinstance(c.func, ast.Attribute) and c.func.attr == "truncate" for c in ast.walk(f_)) and f_.args.args:
+            P_ = f_.args.args[0].arg
+            hp = [unparse(x.test).replace(P_, "P") for x in ast.walk(f_) if isinstance(x, (ast.If, ast.IfExp)) and "gz" in unparse(x.test)]
+            ctx.ob(rule, EXPC, qual, f_, "the repair of a torn result file chooses gzip by the writer's predicate", len(hp) == 1 and len(wp) == 1 and hp[0] == norm(wp[0]) and ok, detail={"repair": hp, "writer": wp}, stmt="gz predicate of the repair")
 
 
 def r8_line_producers(ctx, rule="C12.R8"):
@@ -554,6 +586,8 @@ def r7_csv_dialect(ctx, rule="C12.R7"):
 
 
 CONTROLS = [
+    ("fallback parser looks behind a one-character piece", RDR, M.replace_expr("ArffLineReader._dense_advanced", "len(item.rstrip()) < 2 or item.rstrip()[-1] != possible_quotechar or item.rstrip()[-2] == '\\\\'",
+        "item.rstrip()[-1] != possible_quotechar or item.rstrip()[-2] == '\\\\'"), "C12.R13"),
     ("sparse values unquoted with strip", RDR, M.replace_expr("ArffLineReader._sparse", "v[1:-1]", "v.strip(v[0])"), "C12.R10"),
     ("libsvm lines split on single blanks", RDR, M.replace_expr("LibsvmReader.filter", "line.split()", "line.strip().split(' ')"), "C12.R12"),
     ("gzip bodies end with their first member", SRC, M.replace_stmt("HttpSource._byte_it_", lambda st: isinstance(st, ast.FunctionDef) and st.name == "decomp", "decomp = zlib.decompressobj(16 + zlib.MAX_WBITS).decompress"), "C12.R1"),
